@@ -4,7 +4,7 @@
   and the CDF is a function of (n, alpha).  What the property adds about the C++ classes is checked by
   (i) tie G class facts regenerated from the source: `operator()` is `const`; the only static /
   thread_local / mutable object is the `uniform_real_distribution`; both constructors throw on
-  `max < min`; (ii) the correspondence run: copies, moved-to and equal-parameter instances and threads
+  `max < min`; every data member is held by value (defaulted copies are deep); (ii) the correspondence run: copies, moved-to and equal-parameter instances and threads
   sharing one const generator produce the sequences the model's function of the recomputed variates
   predicts.
 -/
@@ -15,7 +15,8 @@ namespace CppUtil.Props
 open CppUtil CppUtil.Zipf
 
 /-- tie G: class facts of the current source -/
-theorem c19_class_facts : Gen.zipfCallConst = true ∧ Gen.zipfOnlyDistStatic = true ∧ Gen.zipfCtorChecks = 2 := by
+theorem c19_class_facts : Gen.zipfCallConst = true ∧ Gen.zipfOnlyDistStatic = true ∧ Gen.zipfCtorChecks = 2 ∧
+    Gen.zipfValueMembersOnly = true := by
   decide
 
 /-- two generators with equal tables return equal values for equal variates (no hidden state): stated
